@@ -13,6 +13,10 @@ import (
 )
 
 func main() {
+	if len(os.Args) == 3 && os.Args[1] == "-pattern-probe" {
+		c14.PatternProbe(os.Args[2])
+		return
+	}
 	fx := os.Getenv("VERIF_FIXTURES")
 	simrt.Main(
 		c13.Engine{FixtureDir: fx},
